@@ -13,8 +13,11 @@ structure St where
 
 def init : St := {}
 
+/-- model output and SPEC output of a sweep: the fault-free result, and no trace -/
 def addClean (out : String) : String :=
-  "\t".intercalate ((out.splitOn "\t").map (· ++ " clean"))
+  match out.splitOn "\t" with
+  | [m] => m ++ " clean\t" ++ m ++ " clean"
+  | ms => "\t".intercalate (ms.map (· ++ " clean"))
 
 def step (st : St) (args : List String) : St × String :=
   match args with
